@@ -215,7 +215,9 @@ func (in *c01Inst) build(op string) ([]pb.Transaction, bool) {
 		return []pb.Transaction{
 			fix.IBTPTx(fix.KB, w.N.Next(fix.KB), &pb.IBTP{From: a1, To: b2, Index: g.Vals[0], Type: pb.IBTP_RECEIPT_SUCCESS, Group: g}, fix.GoodProof),
 			fix.IBTPTx(fix.KB, w.N.Next(fix.KB), &pb.IBTP{From: a1, To: bu, Index: g.Vals[2], Type: pb.IBTP_RECEIPT_SUCCESS, Group: g}, fix.GoodProof),
-			fix.IBTPTx(fix.KW, w.N.Next(fix.KW), &pb.IBTP{From: a1, To: ww, Index: g.Vals[1], Type: pb.IBTP_RECEIPT_FAILURE, Group: g}, []byte("True")),
+			// the third child fails or - depending on the position of the block in the history - succeeds
+			// too: the last receipt then completes the group and records the call for every child at once
+			fix.IBTPTx(fix.KW, w.N.Next(fix.KW), &pb.IBTP{From: a1, To: ww, Index: g.Vals[1], Type: map[bool]pb.IBTP_Type{true: pb.IBTP_RECEIPT_FAILURE, false: pb.IBTP_RECEIPT_SUCCESS}[w.Blocks%2 == 0], Group: g}, []byte("True")),
 		}, true
 	case "wreq":
 		n := in.nextReq(ww, a1)
